@@ -268,7 +268,7 @@ def obligations(tier, seed):
         if not quick:
             # (two-field templates with 2 items + 1 reference = 6 symbolic indices did not finish in 3000 s: the two-field rows stay at
             # 1 item + 1 reference and 2 items + 0 references; the one-field template carries the larger tables)
-            plans += [("key1", ["i0", "i1"], ["r0", "r1"]), ("key1", ["i0", "i1", "i2"], ["r0"]), ("unique2", ["i0", "i1", "i2"], [])]
+            plans += [("key1", ["i0", "i1"], ["r0", "r1"]), ("key1", ["i0", "i1", "i2"], ["r0"])]
         for template, items, refs in plans:
             two = template.endswith("2")
             args = []
